@@ -56,6 +56,10 @@ def configs(tier, seed):
         out.append({"seed": 100 * seed + 60, "kwargs": {**base, "max_iteration": 4}, "resume_after": [2]})
         out.append({"seed": 100 * seed + 61, "model": "gaussprior", "resume_after": [1, 3],
                     "kwargs": {**base, "max_iteration": 4, "save_log_q": True, "strict_threshold": True}})
+        # two resumes with new proposals trained in between, without the density table
+        out.append({"seed": 100 * seed + 62, "kwargs": {**base, "max_iteration": 5}, "resume_after": [1, 3]})
+        # variable draws where most levels remove fewer than min_samples
+        out.append({"seed": 100 * seed + 57, "kwargs": {**base, "nlive": 80, "min_samples": 60, "draw_constant": False, "max_iteration": 4}})
         # ... and more stored samples than any internal batch size at the moment a checkpoint WITHOUT the density table is resumed
         out.append({"seed": 100 * seed + 71, "kwargs": {**base, "nlive": 6000, "max_iteration": 3}, "resume_after": [1], "hang_after": 900})
         # more samples in one store than any internal batch size of the density evaluation
@@ -144,6 +148,15 @@ def check_snapshot(chk, cfg, snap, lits, wlits, K, rng, recomputed=False):
         rows = st["rows"]
         if st["store"] == "train" and st.get("n", len(rows)) != total:
             chk.fail("C03:counts", f"{st.get('n', len(rows))} stored samples but counts sum to {total}", rep({"store": st["store"]}))
+        if st.get("n_flows") is not None and st["n_flows"] != len(counts):
+            chk.fail("C03:proposals-missing", f"{st['n_flows'] - 1} saved flows can be re-evaluated but the sampler counts {len(counts) - 1} "
+                     f"flow proposals ({st['store']} store)", rep({"store": st["store"]}))
+        if st.get("by_it") is not None:
+            # the weights are fractions of the samples actually held: tally the store by the proposal each sample came from
+            tally = [st["by_it"].get(j - 1, 0) for j in range(len(counts))]
+            if sum(tally) == st.get("n", sum(tally)) and tally != counts and not cfg["kwargs"].get("replace_all"):
+                chk.fail("C03:counts-vs-store", f"the {st['store']} store holds {tally} samples per proposal but the weights are "
+                         f"computed from the counts {counts}", rep({"store": st["store"], "tally": tally}))
         if st.get("vec"):
             chk.evaluations += st["vec"]["n"] - len(rows)
             chk.count("rows_checked_vectorised", st["vec"]["n"])
